@@ -25,7 +25,7 @@ fn run_requests(reqs: &[Value], impl_out: &str, oracle_out: &str) {
 }
 
 fn main() {
-    std::panic::set_hook(Box::new(|_| {}));
+    if std::env::var("MVERIF_PANICS").is_err() { std::panic::set_hook(Box::new(|_| {})); }
     let args: Vec<String> = std::env::args().collect();
     if args.len() < 2 {
         usage();
